@@ -13,7 +13,8 @@ T := N | T | F | i<int> | f<rat> | s<name> | a<dtype>(<n>,…)[<rat>,…] | l[T,
 Requests (after the `C16` token):
 
 * `dict coords|grid|field|basis <tree>` — `from_dict` then `to_dict`: `ok <tree>` or `err <kind>`
-* `pickle field <tree>` — `__getstate__`/`__setstate__` round trip, answer as for `dict`
+* `pickle field c|f <tree>` — `__getstate__`/`__setstate__` round trip for a C- or Fortran-ordered
+  data array, answer as for `dict` (`pickle-bad`: the C-bytes-with-real-flag variant)
 * `fits field new|old <tree>` — `write_field` then `read_field` through the FITS model:
   `ok w=<ok|kind> img=<tree|N> r=<ok|kind|-> out=<tree|->`
 * `fits basis new|old <tree>` — the same for mode bases
@@ -178,6 +179,26 @@ def fitsAnswer {α} (w : Except Err FitsFile) (rd : FitsFile → Except Err α)
       | .error _ => "-"
     s!"ok w=ok img={showImage w} r={status r} out={out}"
 
+def deinterleave : List Rat → List Rat × List Rat
+  | a :: b :: r => let (x, y) := deinterleave r; (a :: x, b :: y)
+  | _ => ([], [])
+
+def interleave : List Rat → List Rat → List Rat
+  | a :: x, b :: y => a :: b :: interleave x y
+  | _, _ => []
+
+/-- pickle round trip of the model; a complex array (re/im interleaved on the wire) is a pair of
+real arrays of the same shape and layout -/
+def pickleRT (bad : Bool) (l : Layout) (f : Field) : Field :=
+  let go := fun (f : Field) =>
+    if bad then Field.setState (f.getStateBad l) else Field.setState (f.getState l)
+  if f.values.dtype.startsWith "c" then
+    let (re, im) := deinterleave f.values.data
+    let fr := go { f with values := { f.values with data := re } }
+    let fi := go { f with values := { f.values with data := im } }
+    { fr with values := { fr.values with data := interleave fr.values.data fi.values.data } }
+  else go f
+
 def step (st : St) : List String → St × String
   | ["dict", "coords", t] =>
     match parseTree? t with
@@ -195,10 +216,16 @@ def step (st : St) : List String → St × String
     match parseTree? t with
     | some t => (st, answer ((ModeBasis.fromDict t).bind ModeBasis.toDict))
     | none => (st, "bad-op")
-  | ["pickle", "field", t] =>
-    match parseTree? t with
-    | some t => (st, answer ((Field.fromDict t).map fun f => (Field.setState f.getState).toDict))
-    | none => (st, "bad-op")
+  | ["pickle", "field", lay, t] =>
+    match parseTree? t, (if lay == "c" then some Layout.c else if lay == "f" then some Layout.f else none) with
+    | some t, some l =>
+      (st, answer ((Field.fromDict t).map fun f => (pickleRT false l f).toDict))
+    | _, _ => (st, "bad-op")
+  | ["pickle-bad", "field", lay, t] =>
+    match parseTree? t, (if lay == "c" then some Layout.c else if lay == "f" then some Layout.f else none) with
+    | some t, some l =>
+      (st, answer ((Field.fromDict t).map fun f => (pickleRT true l f).toDict))
+    | _, _ => (st, "bad-op")
   | ["fits", "field", which, t] =>
     match parseTree? t, which with
     | some t, "new" =>
